@@ -257,6 +257,12 @@ func (flogs *fileLogs) ReadAll(dataID, version dvid.UUID) ([]storage.LogMessage,
 			entryType := binary.LittleEndian.Uint16(data[pos : pos+2])
 			size := int64(binary.LittleEndian.Uint32(data[pos+2 : pos+6]))
 			pos += 6
+			if pos+size > int64(len(data)) {
+				// The last record was only partially written (e.g., a crash during Append).
+				// Slicing past len(data) would return bytes from the buffer's spare capacity.
+				dvid.Criticalf("truncated record in filelog %q at position %d: payload of %d bytes but only %d remain\n", filename, pos-6, size, int64(len(data))-pos)
+				break
+			}
 			databuf := data[pos : pos+size]
 			pos += size
 			msg := storage.LogMessage{EntryType: entryType, Data: databuf}
@@ -324,6 +330,11 @@ func (flogs *fileLogs) StreamAll(dataID, version dvid.UUID, ch chan storage.LogM
 			entryType := binary.LittleEndian.Uint16(data[pos : pos+2])
 			size := binary.LittleEndian.Uint32(data[pos+2 : pos+6])
 			pos += 6
+			if uint64(pos)+uint64(size) > uint64(len(data)) {
+				// The last record was only partially written (e.g., a crash during Append).
+				dvid.Criticalf("truncated record in filelog %q at position %d: payload of %d bytes but only %d remain\n", filename, pos-6, size, len(data)-int(pos))
+				break
+			}
 			databuf := data[pos : pos+size]
 			pos += size
 			ch <- storage.LogMessage{EntryType: entryType, Data: databuf}
